@@ -196,3 +196,9 @@ def into_ranges_stub(prog, values_of):
             return r
         return Vec(vals, fresh=True)
     return stub
+
+
+def missing(x):
+    """a NaN result: the scalar np.nan itself or the None that stands for a missing cell"""
+    from .absval import NAN
+    return x is None or x is NAN
